@@ -22,7 +22,7 @@ REQUIRED_MONITORS = ["step:outputs-compared"]
 REQUIRED_REACH = {"optim.py": ["lr_scale_func_adam", "_get_fan_in", "lr_scale_for_depth", "scaled_parameters"],
                   "functional.py": ["linear", "linear_readout", "conv1d"],
                   "_modules.py": ["Linear.__init__", "LinearReadout.__init__", "Conv1d.__init__", "DepthSequential.__init__"]}
-MIN_NONTRIVIAL = {"quick": 250, "thorough": 5000}
+MIN_NONTRIVIAL = {"quick": 250, "thorough": 20000}
 
 
 def gen_cases(tier: str, seed: int) -> List[Dict[str, Any]]:
